@@ -240,7 +240,7 @@ def replay(ctx, h, m, expect_rule):
 
 def run(ctx):
     h = Holes(ctx)
-    ctx.bounds = {'skeleton': 'one binding per run (entries are generated independently; the list builder is C04)',
+    ctx.bounds = {'skeleton': 'one binding per run (entries are generated independently; the list builder is C04); plus 3 variables with symbolic (@group, @binding) pairs for slot uniqueness',
                   'binding index': 'all u32', 'stage mask': 'all 8 sets', 'storage formats': len(h.E['StorageFormat']),
                   'type classes': BUFFER_KINDS + ['Image', 'Sampler', 'Atomic', 'BindingArray', 'AccelerationStructure']}
     ctx.assumptions += [
@@ -347,6 +347,15 @@ def run(ctx):
     C03.sequences(ctx, 2, 2, vis_seen)
     C03.end_to_end(ctx, vis_seen)
     ctx.extra['visibility_subcheck'] = vis_seen
+    # "no two entries of one layout share a binding index" (wgpu create_bind_group_layout: conflicting binding): the grouping of
+    # k = 3 variables with symbolic (@group, @binding) pairs, judged by C11's contract (Ok => every slot used once)
+    from harness import c11 as C11
+    k = 3
+    src3, module3, holes3 = C11.build(ctx, k)
+    res3 = ctx.explore(f'get_bind_group_data/k={k} (distinct binding indices per layout)', lambda it: it.call('get_bind_group_data', [mkref(module3)]),
+                       anchors=['get_bind_group_data'], timeout_s=900)
+    for pc, kind, out, _ in res3:
+        C11.check_result(ctx, f'k={k}', holes3, pc, kind, out, lambda vals: C11.template(k, vals))
     ctx.extra['entry_kinds_per_path'] = kinds
     ctx.extra['generator_refusals'] = panics
     # whole-pipeline translator validation on the repository's own fixtures
